@@ -195,6 +195,25 @@ def run(tier, seed):
         ob["replay_path"] = path
         ob["replay"] = {"path": path, "outcome": "model-only", "message": "order of the record trees in the snapshot"}
     obligations.append(ob)
+    # the configuration component's own snapshot records: build_snapshot -> load_snapshot into a fresh actor serves the same
+    from . import c01cfg
+    ob = c01cfg.run(tier, seed)
+    if ob.get("verdict") == "violation":
+        if native_ok:
+            # the node scenario publishes one key twice, compacts and restarts: it shows every difference in what is served for a key published more than once
+            rr = native_scenarios("C01", "violation", ["compaction_then_restart"], ob["message"], {"obligation": ob["harness"], "model": ob.get("counterexample")})
+            ob["replay_path"] = rr["path"]
+            if rr["outcome"] == "reproduced":
+                ob["replay"] = {"path": rr["path"], "outcome": rr["outcome"], "message": rr["message"]}
+                ob["message"] = "%s [real node: %s]" % (ob["message"], rr["message"][:400])
+            else:
+                ob["replay"] = {"path": rr["path"], "outcome": "model-only", "message": "the fixed node scenario (one key published twice, compaction, restart) does not show it: %s" % rr["message"][:200]}
+        else:
+            from lib import native
+            path = native.write_replay("C01", "c01", "model", [], {"engine": "smt", "mode": "model-only", "obligation": ob["harness"], "message": ob["message"], "model": ob.get("counterexample")})
+            ob["replay_path"] = path
+            ob["replay"] = {"path": path, "outcome": "model-only", "message": "publish / remove history before the snapshot"}
+    obligations.append(ob)
     info["wall_s"] = round(time.time() - t0, 1)
     return {"obligations": obligations, "info": info}
 
